@@ -466,8 +466,9 @@ not have any effect."""
         >>> print(len(c))
         10
         """
-        if isgenerator(lits):
-            lits = list(lits)
+        # work on a copy: the signs are flipped in place below, and the
+        # caller's sequence may be immutable (tuple, range)
+        lits = list(lits)
         if check:
             # dummy constraint, just to check the literals once
             self._check_and_update([(1,l) for l in lits]+ ['==',0])
